@@ -70,6 +70,7 @@ def run_e1(prop, tier, seed, technique, plan, monitor, quick_budget, thorough_bu
         if not res.complete:
             rep.exhaustive = False
         per_scn.append({"scenario": scn.name, "k": k, "executions": res.executions, "complete": res.complete,
+                        "completed_k": res.completed_k, "all_choice_sequences_enumerated": res.tree_exhausted, "level_sizes": res.level_sizes,
                         "distinct_outcomes": len(res.outcomes), "max_choice_points": res.max_points,
                         "executions_with_overlap": res.stats["executions_with_overlap"], "test_runs": res.stats["test_runs"],
                         "door_requests": res.stats["door_requests"], "violating_executions": len(res.violations),
@@ -105,7 +106,8 @@ def run_e1(prop, tier, seed, technique, plan, monitor, quick_budget, thorough_bu
             rep.states += len(res.histories)
             for sig in res.outcomes:
                 rep.distinct.add((scn.name, sig))
-            per_scn.append({"scenario": scn.name, "k": k, "executions": res.executions, "complete": res.complete, "distinct_outcomes": len(res.outcomes),
+            per_scn.append({"scenario": scn.name, "k": k, "executions": res.executions, "complete": res.complete, "completed_k": res.completed_k,
+                            "distinct_outcomes": len(res.outcomes),
                             "violating_executions": len(res.violations), "wall_s": round(time.time() - now, 1)})
             seen_sig = set()
             for v in res.violations:
@@ -135,6 +137,8 @@ def run_e1(prop, tier, seed, technique, plan, monitor, quick_budget, thorough_bu
         raise common.HarnessError("world model disagrees with the real state code: " + json.dumps(engine.BINDING["mismatches"][0])[:600])
     rep.sections["scenarios"] = per_scn
     rep.bounds = {"deviation_bound_per_scenario": {p["scenario"]: p["k"] for p in per_scn},
+                  "deviation_bound_completed_per_scenario": {p["scenario"]: ("all" if p.get("all_choice_sequences_enumerated") else p.get("completed_k"))
+                                                             for p in per_scn if "completed_k" in p},
                   "durations_in_backoff_periods": sorted({d for s, _, _ in _weighted(plan) for d in s.D}),
                   "outcomes": sorted({o for s, _, _ in _weighted(plan) for o in s.O}), "wall_clock_cap_s": total_budget}
     checked = engine.memo_selfcheck()
